@@ -145,6 +145,8 @@ func TestVerifDetectorAnnouncements(t *testing.T) {
 		registrant string
 		portOv     int    // registrar destination-port override (0 none)
 		ipOv       string // registrar phantom override ("" none)
+		ip6raw     []byte // raw bytes put into the response's ipv6addr field (family-mismatched overrides)
+		mayRefuse  bool   // the station may refuse this message; if it admits it, its announcements must be acceptable
 	}
 	shapes := []shape{}
 	for _, tr := range []pb.TransportType{pb.TransportType_Min, pb.TransportType_Obfs4, pb.TransportType_Prefix, pb.TransportType_DTLS} {
@@ -154,13 +156,19 @@ func TestVerifDetectorAnnouncements(t *testing.T) {
 				regs = []string{"absent", "v4", "v6", "v4mapped"}
 			}
 			for _, rg := range regs {
-				shapes = append(shapes, shape{tr, v6, rg, 0, ""})
+				shapes = append(shapes, shape{tr: tr, v6: v6, registrant: rg})
 			}
 		}
 	}
-	shapes = append(shapes, shape{pb.TransportType_Min, false, "v4", 8443, ""}, shape{pb.TransportType_Min, true, "absent", 51234, ""},
-		shape{pb.TransportType_Prefix, false, "v4", 0, "192.122.190.77"}, shape{pb.TransportType_Min, true, "v6", 0, "2001:48a8:687f:1::77"},
-		shape{pb.TransportType_Obfs4, false, "v4mapped", 1022, "192.122.190.78"})
+	shapes = append(shapes, shape{tr: pb.TransportType_Min, registrant: "v4", portOv: 8443}, shape{tr: pb.TransportType_Min, v6: true, registrant: "absent", portOv: 51234},
+		shape{tr: pb.TransportType_Prefix, registrant: "v4", ipOv: "192.122.190.77"}, shape{tr: pb.TransportType_Min, v6: true, registrant: "v6", ipOv: "2001:48a8:687f:1::77"},
+		shape{tr: pb.TransportType_Obfs4, registrant: "v4mapped", portOv: 1022, ipOv: "192.122.190.78"})
+	// registrar overrides whose address family does not fit the registration / the registrant: an IPv4 address (v4-mapped 16 bytes, or
+	// 4 raw bytes) in the IPv6 override field.  Refusing the message is fine; announcing something the detector rejects is not.
+	for _, rg := range []string{"absent", "v6", "v4", "v4mapped"} {
+		shapes = append(shapes, shape{tr: pb.TransportType_Min, v6: true, registrant: rg, ip6raw: net.ParseIP("192.0.2.7").To16(), mayRefuse: true},
+			shape{tr: pb.TransportType_Prefix, v6: true, registrant: rg, ip6raw: net.ParseIP("192.0.2.8").To4(), mayRefuse: true, portOv: 8080})
+	}
 
 	emitNew := func(i int, sh shape, reg *DecoyRegistration, op string, before int) bool {
 		deadline := time.Now().Add(2 * time.Second)
@@ -219,8 +227,11 @@ func TestVerifDetectorAnnouncements(t *testing.T) {
 			case "v4mapped":
 				w.RegistrationAddress = net.ParseIP("198.51.100.7").To16()
 			}
-			if sh.portOv != 0 || sh.ipOv != "" {
+			if sh.portOv != 0 || sh.ipOv != "" || sh.ip6raw != nil {
 				rr := &pb.RegistrationResponse{}
+				if sh.ip6raw != nil {
+					rr.Ipv6Addr = sh.ip6raw
+				}
 				if sh.portOv != 0 {
 					rr.DstPort = proto.Uint32(uint32(sh.portOv))
 				}
@@ -240,12 +251,20 @@ func TestVerifDetectorAnnouncements(t *testing.T) {
 			}
 		}
 		if err != nil || len(regs) != 1 {
+			if sh.mayRefuse {
+				out.Emit(map[string]any{"kind": "refused", "shape": fmt.Sprint(sh), "err": fmt.Sprint(err)})
+				continue
+			}
 			out.Emit(map[string]any{"kind": "notadmitted", "shape": fmt.Sprint(sh), "err": fmt.Sprint(err)})
 			continue
 		}
 		before := srv.count()
 		rm.ingestRegistration(regs[0])
 		if len(rm.GetRegistrations(regs[0].PhantomIp)) == 0 {
+			if sh.mayRefuse {
+				out.Emit(map[string]any{"kind": "refused", "shape": fmt.Sprint(sh), "err": "not visible after ingest"})
+				continue
+			}
 			out.Emit(map[string]any{"kind": "notadmitted", "shape": fmt.Sprint(sh), "err": "not visible after ingest"})
 			continue
 		}
